@@ -236,7 +236,8 @@ func vLinTransCase(c *vCtx, idx []int, ratio, ltLevel, ctLevel int, tag string) 
 	if ltLevel < lvl {
 		lvl = ltLevel
 	}
-	out := bgv.NewCiphertext(params, 1, lvl)
+	// the output object held other data before: nothing of it may survive
+	out := vAtomCiphertext(c, lvl, "junk", 9)
 	vAssert(eval.Evaluate(ct, lt, out) == nil, tag+"-advertised-Galois-keys-suffice-and-Evaluate-succeeds")
 	r := params.RingQ().AtLevel(lvl)
 	phase := vPhase(c, ct)
@@ -253,7 +254,8 @@ func VerifH_C12_LinearTransformations() {
 	c := VerifSetup_Ctx(vIsAlgebraic())
 	c.Kgen.GenSecretKey(c.Sk)
 	maxL := c.Params.MaxLevel()
-	sets := [][]int{{0}, {1}, {-1}, {-3, -1, 0, 2, 4}, {0, 1, 2, 3, 4, 5, 6, 7}, {-7, 7}}
+	// (the last two sets have no diagonal in the first giant-step block [0, N1) of the baby-step giant-step split)
+	sets := [][]int{{0}, {1}, {-1}, {-3, -1, 0, 2, 4}, {0, 1, 2, 3, 4, 5, 6, 7}, {-7, 7}, {-3, -2, -1}, {6, 7}}
 	for si, idx := range sets {
 		for _, ratio := range []int{-1, 0, 1, 2} {
 			if vTier() == 0 && si >= 4 && ratio == 0 {
@@ -268,10 +270,15 @@ func VerifH_C12_LinearTransformations() {
 		}
 	}
 	vManyAndSequential(c)
+	vManyMixedLevels(c)
 	vCover("C12-lintrans-reached")
 }
 
 func vNewLT(c *vCtx, idx []int, ratio int) (LinearTransformation, map[int][]uint64) {
+	return vNewLTAt(c, idx, ratio, c.Params.MaxLevel())
+}
+
+func vNewLTAt(c *vCtx, idx []int, ratio, levelQ int) (LinearTransformation, map[int][]uint64) {
 	params := c.Params
 	cols := params.MaxSlots() >> 1
 	diags := map[int][]uint64{}
@@ -280,7 +287,7 @@ func vNewLT(c *vCtx, idx []int, ratio int) (LinearTransformation, map[int][]uint
 	}
 	lt := NewLinearTransformation(params, Parameters{
 		DiagonalsIndexList:        idx,
-		LevelQ:                    params.MaxLevel(),
+		LevelQ:                    levelQ,
 		LevelP:                    params.MaxLevelP(),
 		Scale:                     params.NewScale(5),
 		LogDimensions:             params.LogMaxDimensions(),
@@ -327,5 +334,38 @@ func vManyAndSequential(c *vCtx) {
 	rs := params.RingQ().AtLevel(b.Level())
 	if seq.Level() == b.Level() {
 		vAssertNoiseFree(rs, vPhase(c, seq), vPhase(c, b), 44, "EvaluateSequential-is-the-composition")
+	}
+}
+
+// many-on-one-input with transformations encoded at different levels (the first one lower than a later one, and the
+// other way round): every output is its own transformation of the input, at the level of that transformation
+func vManyMixedLevels(c *vCtx) {
+	params := c.Params
+	maxL := params.MaxLevel()
+	for oi, order := range [][2]int{{maxL - 1, maxL}, {maxL, maxL - 1}} {
+		for _, ratio := range []int{-1, 1} {
+			tag := "EvaluateMany-mixed-levels-order" + vItoa(oi) + "-ratio" + vItoa(ratio)
+			lt1, _ := vNewLTAt(c, []int{0, 1, 3}, ratio, order[0])
+			lt2, _ := vNewLTAt(c, []int{-1, 2}, ratio, order[1])
+			gals := append(lt1.GaloisElements(params), lt2.GaloisElements(params)...)
+			gks := c.Kgen.GenGaloisKeysNew(gals, c.Sk)
+			eval := NewEvaluator(bgv.NewEvaluator(params, rlwe.NewMemEvaluationKeySet(nil, gks...)))
+			ct := vAtomCiphertext(c, maxL, "x", 3)
+			outs, err := eval.EvaluateManyNew(ct, []LinearTransformation{lt1, lt2})
+			vAssert(err == nil && len(outs) == 2, tag+"-no-error")
+			if err != nil || len(outs) != 2 {
+				continue
+			}
+			for k, lt := range []LinearTransformation{lt1, lt2} {
+				lvl := order[k]
+				vAssert(outs[k].Level() == lvl, tag+"-output-level-is-the-level-of-its-transformation")
+				if outs[k].Level() != lvl {
+					continue
+				}
+				phase := vPhase(c, ct)
+				phase.Resize(lvl)
+				vAssertNoiseFree(params.RingQ().AtLevel(lvl), vPhase(c, outs[k]), vExpected(c, lt, phase, lvl), 42, tag+"-output-"+vItoa(k)+"-is-its-transformation")
+			}
+		}
 	}
 }
